@@ -126,6 +126,10 @@ def run(rep, ix, tier):
     # ---- (6) walk
     check_walk(rep, ix, pm)
     check_low_level(rep, ix, pm)
+    # the file-type detector that gates the RP66V1 tools must accept the same labels (bin_file_type.py is an anchor)
+    from . import C20
+    C20.check_sul(rep, ix)
+    rep.floor('R-C20-SUL', 8)
     rep.floor('R-C01-SUL', 6)
     rep.floor('R-C01-ATTR', 9)
     rep.floor('R-C01-LEN', 8)
